@@ -49,7 +49,7 @@ PROPS = {
     "C08": dict(
         src="Properties/C08.v", target="Properties/C08.vo",
         support=["Merge/Model.vo", "Merge/Spec.vo"], run_targets=["Run/MergeCases.vo"],
-        drivers=[dict(name="merge", extra="mode=c08", n_quick=160, n_thorough=3000, shard=20,
+        drivers=[dict(name="merge", extra="mode=c08", n_quick=240, n_thorough=3000, shard=30,
                       results={"R_read": "agree", "R_merge": "agree", "R_wf": "agree",
                                "R_c08_present": "mon", "R_c08_refs": "mon", "R_c08_attrs": "mon", "R_c08_place": "mon",
                                "R_c08_aliases": "mon", "R_c08_default": "mon", "R_c08_dropped": "mon", "R_c08_errors": "mon", "R_c08_exec": "mon",
@@ -68,11 +68,11 @@ PROPS = {
     "C09": dict(
         src="Properties/C09.v", target="Properties/C09.vo",
         support=["Merge/Model.vo", "Merge/Spec.vo"], run_targets=["Run/MergeCases.vo"],
-        drivers=[dict(name="merge", extra="mode=c09", n_quick=64, n_thorough=1000, shard=8,
+        drivers=[dict(name="merge", extra="mode=c09", n_quick=80, n_thorough=1000, shard=10,
                       results={"R_read": "agree", "R_merge": "agree", "R_wf": "agree", "R_c09_det": "mon", "R_c09_stable": "mon"})],
         signature=sig_c09,
         rule="a case = one generated include tree (3-5 files, mostly siblings of the root with overlapping variable and task names, diamonds, the same file twice) loaded 40 times by Executor.Setup in one process; "
-             "each load is dumped canonically (task table in order with every field, vars, env, output, plus fast-compiled command lines and variable values). "
+             "each load is dumped canonically (task table in order with every field, vars, env, output, plus fast-compiled command lines and variable values, and the working directory stamped on every global variable). "
              "R_c09_det (monitor): all 40 dumps are identical. R_c09_stable (monitor of C09_partial): all dumps agree on the set of keys and, per origin, on commands, deps, dir, include vars and every attribute. R_merge: every distinct dump is one of the model's outcomes merge_all current_variant G pi sigma (pi over all topological orders, sigma over all edge orders). "
              "distinct = distinct file sets",
         assumptions=_COMMON_ASSUME,
